@@ -131,6 +131,7 @@ pub fn alphabet(u: Universe, contents: &[&[u8]], append_cap: usize, composites: 
         observers: false,
         setters: false,
         sessions: false,
+        residue: false,
     }
 }
 
@@ -141,8 +142,15 @@ pub fn limits(ctx: &Ctx) -> Limits {
             max_states: 400_000,
             max_depth: 64,
         },
+        // (VFSMC_THOROUGH_WALL_S shortens the per-configuration cap for a faster pass over every
+        // thorough configuration; the cap that applied is part of the evidence)
         Tier::Thorough => Limits {
-            wall: Duration::from_secs(900),
+            wall: Duration::from_secs(
+                std::env::var("VFSMC_THOROUGH_WALL_S")
+                    .ok()
+                    .and_then(|v| v.parse().ok())
+                    .unwrap_or(900),
+            ),
             max_states: 5_000_000,
             max_depth: 64,
         },
